@@ -3,42 +3,10 @@
   two keys with the same 72-byte cyclic expansion give the same schedule.
 -/
 import XC.Model.C17
+import XC.Proofs.C12_BfSpec
 namespace XC.C12
 
-def cyc (key : Array UInt8) (p : Nat) : UInt8 := key[p % key.size]!
-
-theorem succ_mod (p n : Nat) (hn : 0 < n) :
-    (p + 1) % n = if p % n + 1 ≥ n then 0 else p % n + 1 := by
-  have hlt := Nat.mod_lt p hn
-  have hdm := Nat.div_add_mod p n
-  split
-  · have e : p % n + 1 = n := by omega
-    have : p + 1 = n * (p / n + 1) := by rw [Nat.mul_add, Nat.mul_one]; omega
-    rw [this, Nat.mul_mod_right]
-  · have : p + 1 = n * (p / n) + (p % n + 1) := by omega
-    rw [this, Nat.mul_add_mod, Nat.mod_eq_of_lt (by omega)]
-
-theorem nextByte_cyc (key : Array UInt8) (hn : 0 < key.size) (p : Nat) :
-    nextByte key (p % key.size) = (cyc key p, (p + 1) % key.size) := by
-  unfold nextByte cyc
-  rw [succ_mod p key.size hn]
-
-theorem nextWord_cyc (key : Array UInt8) (hn : 0 < key.size) (p : Nat) :
-    nextWord key (p % key.size) =
-      (((((cyc key p).toUInt32 <<< 8) ||| (cyc key (p+1)).toUInt32) <<< 8 ||| (cyc key (p+2)).toUInt32) <<< 8
-        ||| (cyc key (p+3)).toUInt32, (p + 4) % key.size) := by
-  unfold nextWord
-  simp only [nextByte_cyc key hn]
-
 namespace Blowfish
-
-/-- one step of `xorKey`'s fold -/
-def xorStep (key : Array UInt8) (st : Box × Nat) (i : Nat) : Box × Nat :=
-  let (w, j) := nextWord key st.2
-  (st.1.set! i (st.1[i]! ^^^ w), j)
-
-theorem xorKey_eq (key : Array UInt8) (c : Box) :
-    xorKey key c = ((List.range 18).foldl (xorStep key) (c, 0)).1 := rfl
 
 theorem xorFold_congr (k1 k2 : Array UInt8) (h1 : 0 < k1.size) (h2 : 0 < k2.size)
     (hc : ∀ p, p < 72 → cyc k1 p = cyc k2 p) (is : List Nat) (t : Nat) (c : Box)
